@@ -13,10 +13,14 @@ UNIT = dict(
         "TimeLimiter::clone@Clone": dict(),
         "TimeLimiter::poll_ready@Service": dict(rules=[("R10p", "TimeLimiterError::Inner")]),
         "TimeLimiter::call@Service": dict(rules=[
-            ("R15", r"let \(tx, rx\) = tokio::sync::oneshot::channel\(\);", r"tokio::select!\s*\{", "vx_opaque_noncancel(inner, req, timeout_duration, Tracked(tr))"),
+            ("R17-spawn", 1),
+            ("R17-select", 1),
+            ("sub", "R9-paths", r"tokio::sync::oneshot::channel\(\)", "oneshot_channel(Tracked(tr))", 1),
+            ("sub", "R9-paths", r"tokio::time::sleep", "sleep", 1),
+            ("sub", "R6-send", r"tx\.send\(result\)", "tx.send(result, Tracked(tr))", 1),
             ("R4",), ("R3",), ("R5",),
             ("sub", "R16-local-type", r"let result: Option<Result<S::Response, S::Error>> =", "let result: Option<Result<Res, E>> =", 1),
-            ("addarg", ["call"], TR, 1),
+            ("addarg", ["call"], TR, 2),
         ]),
     },
     types=[
